@@ -143,7 +143,7 @@ PROPS = {
             "context.WithValue / Value and handler-context derivation are Go's (modelled as: a handler serving connection c sees exactly the value stored for c)",
             "'gone' means the server noticed the loss (FIN, RST, client close): the server side configures no timeout, so a silent peer is never noticed there (that is C17's territory, client side only)",
             "dispatch on the client-side handler table (aliases, method tags) is C11/C12's model, tied here by the skeleton of websocketClient and by scenarios",
-            "Jrpc.Epoch (the answering side across a reconnect) assumes an honest peer on each connection: the ids of its pending requests are pairwise distinct, and nothing is read between the sweep and the installation of the next connection; a frame read from the old connection but executed after the sweep is outside the model (the replayer skips it)",
+            "Jrpc.Epoch (the answering side across a reconnect) assumes an honest peer on each connection: the ids of its pending requests are pairwise distinct, and nothing is read between the sweep and the installation of the next connection; a frame read from the old connection but executed after the sweep is the event reqLate (repair F18b)",
         ],
         "timeout": 1500,
     },
